@@ -11,8 +11,9 @@ M    : MC_Pipeline - the command-level design (Pipeline.tla: one action per
 S->C : Gen_Pipeline exports one shortest witness program per abstract
        situation (directory states x provenance x kind/exit of the last
        command x "last two commands identical"); a stratified seeded sample is
-       run as REAL sub-processes on synthetic NIfTI volumes (data types,
-       channels, RGB, anisotropy, 1-3 scales, layouts flat/gzip, sharding),
+       run as REAL sub-processes on synthetic NIfTI volumes and PNG/TIFF slice
+       stacks (data types, channels, RGB, anisotropy, thick slices, 1-3
+       scales, orientation codes, layouts flat/gzip, sharding),
        snapshotting exit code, info files and all decoded chunks after every
        command.
 C->S : every recorded trace is judged by Trace_Pipeline (oracle clauses on
@@ -31,7 +32,7 @@ RULE = ("a program (command list x volume class x layouts) is non-trivial when a
         "dataset); distinct = distinct (command list, volume dtype/shape/voxel size/channels, "
         "layouts) tuples")
 
-DATA_OPS = ("Vol", "Compute", "Convert")
+DATA_OPS = ("Vol", "Slices", "Compute", "Convert")
 
 
 # ---------------------------------------------------------------------------
@@ -40,11 +41,18 @@ DATA_OPS = ("Vol", "Compute", "Convert")
 IMAGE_CLASSES = ["uint8", "uint16", "float32", "uint8:rgb", "int16", "uint8:c2", "float32:q",
                  "float64", "uint8:c3", "uint32"]
 INT_CLASSES = ["uint8", "uint32", "uint16", "uint64"]
+# programs that write slice stacks (PNG / TIFF): 8/16-bit grey, RGB, two directories as channels
+SLICE_CLASSES = ["uint8", "uint16", "uint8:rgb", "uint8:c2", "uint16", "uint8"]
+SLICE_INT_CLASSES = ["uint8", "uint16"]
 
 
 THICK = [([6, 6, 40], [1.0, 1.0, 4.0]), ([40, 6, 6], [4.0, 1.0, 1.0]), ([6, 40, 6], [1.0, 4.0, 1.0]),
          ([5, 7, 44], [1.0, 1.0, 4.0]), ([7, 70, 5], [2.0, 8.0, 2.0]), ([72, 5, 6], [4.0, 1.0, 1.0]),
          ([9, 5, 72], [2.0, 1.0, 4.0]), ([20, 20, 40], [1.0, 1.0, 4.0])]
+
+
+SLICE_LONG = [([3, 2, 270], [4.0, 4.0, 1.0]), ([6, 6, 40], [1.0, 1.0, 4.0]), ([2, 3, 140], [2.0, 2.0, 1.0]),
+              ([5, 7, 44], [1.0, 1.0, 4.0])]
 
 
 def pick_volume(rng, cmds, turn=0, allow_rgb=True):
@@ -84,12 +92,21 @@ def pick_volume(rng, cmds, turn=0, allow_rgb=True):
         # thick axis, the slice axis Z first)
         shape, voxel = THICK[(turn // 3) % len(THICK)]
         shape, voxel = list(shape), list(voxel)
+    if any(op == "Slices" for op in ops) and turn % 2 == 0:
+        # slice stacks: let the slice axis (Z for the exported code RPI) span several slice groups
+        if sharded:
+            shape, voxel = [rng.randint(2, 3), rng.randint(2, 3), rng.randint(257, 290)], [1.0, 1.0, 1.0]
+        else:
+            shape, voxel = SLICE_LONG[(turn // 2) % len(SLICE_LONG)]
+            shape, voxel = list(shape), list(voxel)
     spec = {"shape": shape, "voxel": voxel, "kind": "labels" if seg else rng.choice(["noise", "ramp"]),
             "perfect": True}
+    slices = any(op in ("Slices", "HandInfo") for op in ops)
     if cseg or seg:
-        klass = INT_CLASSES[turn % len(INT_CLASSES)]
+        pool = SLICE_INT_CLASSES if slices else INT_CLASSES
     else:
-        klass = IMAGE_CLASSES[turn % len(IMAGE_CLASSES)]
+        pool = SLICE_CLASSES if slices else IMAGE_CLASSES
+    klass = pool[turn % len(pool)]
     spec["dtype"] = klass.split(":")[0]
     if klass == "float32:q":
         spec["quarters"] = True
@@ -113,6 +130,7 @@ def make_prog(rng, beh, turn=0):
             "explicit": rng.random() < 0.4, "seed": rng.randrange(1 << 30),
             "docs_shflag": rng.random() < 0.6,
             "shard_enc": rng.choice(["gzip", "raw"]),
+            "slice_format": rng.choice(["png", "png", "tiff"]),
             "model_exits": beh["exits"],
             "feat": {k: beh[k] for k in ("pair", "rep", "op", "ex", "cls")}}
 
@@ -128,13 +146,19 @@ def stratum(b):
     if b["rep"] and b["op"] in DATA_OPS and b["ex"] == 0:
         if b["op"] == "Convert":
             return "repeat-convert:" + b["cls"]
+        if b["op"] == "Slices":
+            return "repeat-slices-sharded" if sharded else "repeat-slices"
         return "repeat-data-sharded" if sharded else "repeat-data"
     if b["rep"] and b["op"] in DATA_OPS:
         return "repeat-data-refused"
     if b["rep"]:
         return "repeat-info"
     if b["op"] == "Convert" and b["ex"] == 0:
+        if b["cls"].endswith("s"):
+            return "convert-from-slices"
         return "convert:" + b["cls"]
+    if b["op"] in ("Compute", "Stats") and b["ex"] == 0 and b["cls"].endswith("s"):
+        return "slices-" + b["op"].lower()
     if b["op"] == "Stats" and b["ex"] == 0:
         return "stats-sharded" if sharded else "stats"
     if b["ex"] != 0:
@@ -144,7 +168,9 @@ def stratum(b):
     return "other"
 
 
-QUOTA = [("pair", 0.30), ("repeat-data", 0.10), ("repeat-data-sharded", 0.08),
+QUOTA = [("pair", 0.27), ("repeat-data", 0.08), ("repeat-data-sharded", 0.06),
+         ("repeat-slices", 0.05), ("repeat-slices-sharded", 0.03), ("convert-from-slices", 0.04),
+         ("slices-compute", 0.03), ("slices-stats", 0.02),
          ("repeat-convert:PPkeep", 0.02), ("repeat-convert:PPcopy", 0.02),
          ("repeat-convert:SSkeep", 0.02), ("repeat-convert:PSkeep", 0.02),
          ("repeat-info", 0.04), ("repeat-data-refused", 0.03),
@@ -153,7 +179,8 @@ QUOTA = [("pair", 0.30), ("repeat-data", 0.10), ("repeat-data-sharded", 0.08),
          ("stats", 0.03), ("stats-sharded", 0.03),
          ("refused:Vol", 0.01), ("refused:Compute", 0.01), ("refused:Convert", 0.01),
          ("refused:Stats", 0.01), ("refused:GenScales", 0.01), ("refused:AllInOne", 0.01),
-         ("refused:GenInfo", 0.01), ("refused:Edit", 0.005),
+         ("refused:GenInfo", 0.01), ("refused:Edit", 0.005), ("refused:Slices", 0.01),
+         ("refused:HandInfo", 0.005),
          ("sharded-data", 0.04), ("other", 0.03)]
 
 
@@ -254,7 +281,7 @@ def run(ctx):
     ]
     run_mc(ctx)
     behs = export_programs(ctx)
-    n = ctx.pick(33, 600)
+    n = ctx.pick(44, 600)
     chosen, left = select(ctx, behs, n)
     progs = []
     ctx.notes["strata_selected"] = {}
